@@ -2,7 +2,8 @@
    Only theorem statements here; proofs live in Proof/Range.v.
    Items are of any type A; lists are of any length; bounds are any integers
    whose decimal text strconv.Atoi accepts (hypothesis `atoi p = Some v`). *)
-From Murex Require Import Base.Outcome Base.Bytes Model.Decimal Model.Range Check.C17 Proof.Range Proof.Range2.
+From Murex Require Import Base.Outcome Base.Bytes Model.Decimal Model.Range Check.C17 Proof.Range Proof.Range2
+  Proof.Decimal Proof.DecimalCor.
 Open Scope Z_scope.
 
 (* [s..e], 1 <= s <= e: items s through e (1-based, inclusive, clipped to n) *)
@@ -11,6 +12,17 @@ Theorem C17_range_s_e : forall A (xs : list A) ps pe s e,
   range_filter (mkp ps pe false) xs = Ok (slice1 s e xs).
 Proof. exact range_s_e. Qed.
 Print Assumptions C17_range_s_e.
+
+(* the same over integers (every int64 has its strconv.Itoa text) *)
+Theorem C17_range_s_e_int : forall A (xs : list A) s e, int64 s -> int64 e -> 1 <= s <= e ->
+  range_filter (mkp (itoa s) (itoa e) false) xs = Ok (slice1 s e xs).
+Proof. exact I17.range_s_e_int. Qed.
+Print Assumptions C17_range_s_e_int.
+
+Theorem C17_range_last_k_int : forall A (xs : list A) k, int64 (- k) -> 1 <= k ->
+  range_filter (mkp (itoa (- k)) [] false) xs = Ok (zskipn (zlen xs - k) xs).
+Proof. exact I17.range_last_k_int. Qed.
+Print Assumptions C17_range_last_k_int.
 
 (* [s..]: items s through n; with the e flag item s is dropped *)
 Theorem C17_range_s_open : forall A (xs : list A) ps s excl,
